@@ -27,4 +27,12 @@ MC_Adv == {
    H("A", PF_FDDT, 16, 32, <<0, 0, 0, 0, 1, 2, 3, 4>>), H("A", PF_FDDT, 16, 32, <<0, 1, 0, 0>>),
    H("A", PF_FDCM, 16, 32, <<0, 1, 2>>), H("A", PF_FDCM, 16, 32, FdCm(7, 0, 1, 1, 1, 1, P)),
    H("B", PF_FDCM, 32, 16, FdCm(FC_ABORT, 0, X, X, 255, 3, P)), H("B", PF_FDCM, 32, 16, FdCm(FC_EOMS, 0, 121, 3, 0, 0, P)) }
+\* pairs of hostile frames (MaxAdv = 2) are drawn from the frames that address the sessions of the running transfer
+MC_Adv2 == {
+   H("A", PF_FDCM, 16, 32, FdCm(FC_CTS, 0, X, 1, 1, 0, P)),  H("A", PF_FDCM, 16, 32, FdCm(FC_CTS, 0, X, 1, 0, 0, P)),
+   H("A", PF_FDCM, 16, 32, FdCm(FC_CTS, 0, X, 3, 1, 0, P)),  H("A", PF_FDCM, 16, 32, FdCm(FC_CTS, 0, X, 9, 1, 0, P)),
+   H("A", PF_FDCM, 16, 32, FdCm(FC_EOMA, 0, 61, 2, 255, 255, P)), H("A", PF_FDCM, 16, 32, FdCm(FC_ABORT, 0, X, X, 255, 1, P)),
+   H("A", PF_FDCM, 16, 32, FdCm(FC_RTS, 0, 121, 3, 1, 0, P)), H("A", PF_FDCM, 16, 32, FdCm(FC_EOMS, 0, 121, 3, 0, 0, P)),
+   H("A", PF_FDCM, 255, 32, FdCm(FC_BAM, 0, 61, 2, 255, 0, P)), H("A", PF_FDDT, 16, 32, <<0, 1, 0, 0, 1, 2, 3, 4>>),
+   H("B", PF_FDCM, 32, 16, FdCm(FC_ABORT, 0, X, X, 255, 3, P)), H("B", PF_FDCM, 32, 16, FdCm(FC_EOMS, 0, 121, 3, 0, 0, P)) }
 =============================================================================
